@@ -712,6 +712,20 @@ MUTANTS = [
         ('include/oneapi/tbb/queuing_mutex.h', "                if (m_mutex->q_tail.compare_exchange_strong(expected, nullptr)) {", "                if (m_mutex->q_tail.load() == expected && (m_mutex->q_tail.store(nullptr), true)) {")]),
     dict(name='c08-qrw-internal-lock-leak', prop='C08', clause='D1', edits=[
         (QRW_CPP, "                next->my_going.store(1U, std::memory_order_release);\n                unblock_or_wait_on_internal_lock(s, get_flag(tmp));", "                next->my_going.store(1U, std::memory_order_release);\n                (void)tmp;")]),
+    dict(name='c08-seed3-scan-front-steps-prev', prop='C08', clause='D7', edits=[('src/tbb/concurrent_monitor.h',
+        """            for (base_node* n = my_waitset.last(); n != end; n = next) {
+                next = n->prev;""", """            for (base_node* n = my_waitset.front(); n != end; n = next) {
+                next = n->prev;""")]),
+    dict(name='c08-notify-one-predicate-ignores-address', prop='C08', clause='D7', edits=[('src/tbb/address_waiter.cpp',
+        """    auto predicate = [address] (address_context ctx) {
+        return ctx.my_address == address;
+    };
+
+    waiter.notify_one_relaxed(predicate);""", """    auto predicate = [address] (address_context ctx) {
+        return ctx.my_address != nullptr && address != nullptr;
+    };
+
+    waiter.notify_one_relaxed(predicate);""")]),
     # ---------------------------------------------------------------- C09
     dict(name='c09-trypop-no-empty-test', prop='C09', clause='D1', edits=[
         (CQ_H, "            if (static_cast<std::ptrdiff_t>(queue.tail_counter.load(std::memory_order_relaxed) - ticket) <= 0) { // queue is empty\n                // Queue is empty\n                return { false, ticket };\n            }",
